@@ -33,7 +33,7 @@ CONSTANTS Nodes,     \* set of node names (strings)
           Fix,       \* which repairs the modelled code contains
           Stale      \* TRUE only for trace validation: negative observations of a cancel may be stale
 
-VARIABLES cfg, exp,                   \* frozen: the case and the oracle's expectations for it
+VARIABLES cfg,                        \* frozen: the case
           step,                       \* number of plan operations begun
           tasks, res, out, val, fat, rrun, deps, callers,   \* Executor.tasks and the task fields
           sema, readers, writer, counter, ver,
@@ -42,7 +42,7 @@ VARIABLES cfg, exp,                   \* frozen: the case and the oracle's expec
           ev,                         \* the Evict call in progress
           execCnt, execIn, flags      \* ghosts for the properties
 
-vars == <<cfg, exp, step, tasks, res, out, val, fat, rrun, deps, callers, sema, readers, writer,
+vars == <<cfg, step, tasks, res, out, val, fat, rrun, deps, callers, sema, readers, writer,
           counter, ver, acts, runs, ev, execCnt, execIn, flags>>
 
 ROOT == "_root"
@@ -118,6 +118,8 @@ OracleFrom(c, st, i) ==
   ELSE LET n == OracleStep(c, st, c.plan[i])
        IN <<n.e>> \o OracleFrom(c, [lo |-> n.lo, hi |-> n.hi, vr |-> n.vr], i + 1)
 Oracle(c) == OracleFrom(c, [lo |-> {}, hi |-> {}, vr |-> [k \in Nodes |-> 0]], 1)
+(* evaluated once per case by TLC (constant-level definition); trace validation computes it on demand *)
+ExpTable == [c \in Cases |-> Oracle(c)]
 
 -----------------------------------------------------------------------------
 (* Activations *)
@@ -178,7 +180,6 @@ CyclePath(p, t) == IF Len(p) = 1 THEN <<t, t, t>> ELSE Append(p, t)
 -----------------------------------------------------------------------------
 InitWith(c) ==
   /\ cfg = c
-  /\ exp = Oracle(c)
   /\ step = 0
   /\ tasks = {} /\ res = [k \in Nodes |-> "nil"] /\ out = [k \in Nodes |-> NoId]
   /\ val = [k \in Nodes |-> 0] /\ fat = [k \in Nodes |-> NoF] /\ rrun = [k \in Nodes |-> 0]
@@ -211,7 +212,7 @@ OpBegin ==
        /\ ev' = [pc |-> "collect", keys |-> op.keys, coll |-> {}, conc |-> op.conc]
        /\ UNCHANGED <<acts, runs, flags>>
   /\ step' = step + 1
-  /\ UNCHANGED <<cfg, exp, tasks, res, out, val, fat, rrun, deps, callers, sema, readers, writer,
+  /\ UNCHANGED <<cfg, tasks, res, out, val, fat, rrun, deps, callers, sema, readers, writer,
                  counter, ver, execCnt, execIn>>
 
 (* ---- Run ---- *)
@@ -220,14 +221,14 @@ RunEnter(i, g) ==         \* dirty.RLock; generation := counter.Add(1)
   /\ readers' = readers + 1 /\ counter' = g
   /\ runs' = [runs EXCEPT ![acts[i].run].gen = g]
   /\ acts' = [acts EXCEPT ![i].pc = "racq"]
-  /\ UNCHANGED <<cfg, exp, step, tasks, res, out, val, fat, rrun, deps, callers, sema, writer, ver, ev,
+  /\ UNCHANGED <<cfg, step, tasks, res, out, val, fat, rrun, deps, callers, sema, writer, ver, ev,
                  execCnt, execIn, flags>>
 
 RootAcquire(i) ==         \* root.acquire()
   /\ acts[i].pc = "racq" /\ sema > 0
   /\ sema' = sema - 1
   /\ acts' = [acts EXCEPT ![i].pc = "exec", ![i].hold = TRUE]
-  /\ UNCHANGED <<cfg, exp, step, tasks, res, out, val, fat, rrun, deps, callers, readers, writer, counter, ver,
+  /\ UNCHANGED <<cfg, step, tasks, res, out, val, fat, rrun, deps, callers, readers, writer, counter, ver,
                  runs, ev, execCnt, execIn, flags>>
 
 (* ---- Resolve, on the goroutine of activation i (a leader inside Execute, or a root) ---- *)
@@ -240,7 +241,7 @@ StoreEdges(i) ==          \* getOrCreateTask + deps.Store / callers.Store for th
                    ELSE [d \in Nodes |-> IF d \in SeqSet(b) THEN callers[d] \cup {k} ELSE callers[d]]
      /\ acts' = [acts EXCEPT ![i] = [a EXCEPT !.pc = "start", !.nx = Len(b), !.nw = FALSE, !.outst = 0,
                                                !.got = [j \in 1..Len(b) |-> NoRes]]]
-  /\ UNCHANGED <<cfg, exp, step, res, out, val, fat, rrun, sema, readers, writer, counter, ver, runs, ev,
+  /\ UNCHANGED <<cfg, step, res, out, val, fat, rrun, sema, readers, writer, counter, ver, runs, ev,
                  execCnt, execIn, flags>>
 
 Start(i, hit) ==          \* dep.start(...) for the next query of the batch (backwards)
@@ -257,7 +258,7 @@ Start(i, hit) ==          \* dep.start(...) for the next query of the batch (bac
                           ELSE [a EXCEPT !.nx = n - 1, !.nw = TRUE, !.outst = a.outst + 1]
                 IN acts' = [j \in DOMAIN acts \cup {c} |-> IF j = c THEN child ELSE IF j = i THEN a2 ELSE acts[j]]
              /\ UNCHANGED flags
-  /\ UNCHANGED <<cfg, exp, step, tasks, res, out, val, fat, rrun, deps, callers, sema, readers, writer,
+  /\ UNCHANGED <<cfg, step, tasks, res, out, val, fat, rrun, deps, callers, sema, readers, writer,
                  counter, ver, runs, ev, execCnt, execIn>>
 
 SeesCancel(rid, c) == (c => Canc(rid)) /\ (~c => (Stale \/ ~Canc(rid)))
@@ -273,7 +274,7 @@ Post(i, c) ==             \* after the loop: nothing asynchronous -> return (c =
        /\ c = FALSE
        /\ sema' = IF a.hold THEN sema + 1 ELSE sema
        /\ acts' = [acts EXCEPT ![i] = [a EXCEPT !.pc = "join", !.hold = FALSE]]
-  /\ UNCHANGED <<cfg, exp, step, tasks, res, out, val, fat, rrun, deps, callers, readers, writer, counter,
+  /\ UNCHANGED <<cfg, step, tasks, res, out, val, fat, rrun, deps, callers, readers, writer, counter,
                  ver, runs, ev, execCnt, execIn, flags>>
 
 Join(i, ok) ==            \* join.Acquire(caller.ctx, n)
@@ -283,7 +284,7 @@ Join(i, ok) ==            \* join.Acquire(caller.ctx, n)
                 /\ acts' = [acts EXCEPT ![i].pc = "reacq"]
      ELSE /\ Canc(a.run)
           /\ acts' = [acts EXCEPT ![i] = BatchDone(a, TRUE)]
-  /\ UNCHANGED <<cfg, exp, step, tasks, res, out, val, fat, rrun, deps, callers, sema, readers, writer,
+  /\ UNCHANGED <<cfg, step, tasks, res, out, val, fat, rrun, deps, callers, sema, readers, writer,
                  counter, ver, runs, ev, execCnt, execIn, flags>>
 
 Reacquire(i, ok) ==       \* caller.acquire() at the end of Resolve
@@ -295,14 +296,14 @@ Reacquire(i, ok) ==       \* caller.acquire() at the end of Resolve
      ELSE /\ Canc(a.run)
           /\ acts' = [acts EXCEPT ![i] = BatchDone(a, TRUE)]
           /\ UNCHANGED sema
-  /\ UNCHANGED <<cfg, exp, step, tasks, res, out, val, fat, rrun, deps, callers, readers, writer, counter,
+  /\ UNCHANGED <<cfg, step, tasks, res, out, val, fat, rrun, deps, callers, readers, writer, counter,
                  ver, runs, ev, execCnt, execIn, flags>>
 
 ReadCause(i, c) ==        \* return results, context.Cause(caller.ctx)
   /\ acts[i].pc = "cause"
   /\ SeesCancel(acts[i].run, c)
   /\ acts' = [acts EXCEPT ![i] = BatchDone(acts[i], c)]
-  /\ UNCHANGED <<cfg, exp, step, tasks, res, out, val, fat, rrun, deps, callers, sema, readers, writer,
+  /\ UNCHANGED <<cfg, step, tasks, res, out, val, fat, rrun, deps, callers, sema, readers, writer,
                  counter, ver, runs, ev, execCnt, execIn, flags>>
 
 (* ---- task.run ---- *)
@@ -313,7 +314,7 @@ Load(i) ==                \* output = t.result.Load()
        [] res[k] = "done" -> /\ acts' = Deliver(acts, i, ResOf(k, a.run))
                              /\ SawFlag(a.run, k, rrun[k] = Gen(a.run))
        [] OTHER -> /\ acts' = [acts EXCEPT ![i] = [a EXCEPT !.pc = "chk", !.o = out[k]]] /\ UNCHANGED flags
-  /\ UNCHANGED <<cfg, exp, step, tasks, res, out, val, fat, rrun, deps, callers, sema, readers, writer,
+  /\ UNCHANGED <<cfg, step, tasks, res, out, val, fat, rrun, deps, callers, sema, readers, writer,
                  counter, ver, runs, ev, execCnt, execIn>>
 
 StartExec(a) == IF NB(a) = 0 THEN [a EXCEPT !.pc = "end"] ELSE [a EXCEPT !.pc = "exec", !.bi = 1]
@@ -328,7 +329,7 @@ Cas(i) ==                 \* t.result.CompareAndSwap(nil, output); a synchronous
                /\ acts' = [acts EXCEPT ![i] = StartExec([a EXCEPT !.hold = TRUE]), ![p].hold = FALSE]
                /\ execCnt' = [execCnt EXCEPT ![k] = @ + 1]
      ELSE /\ acts' = [acts EXCEPT ![i].pc = "reload"] /\ UNCHANGED <<res, out, execCnt>>
-  /\ UNCHANGED <<cfg, exp, step, tasks, val, fat, rrun, deps, callers, sema, readers, writer, counter, ver,
+  /\ UNCHANGED <<cfg, step, tasks, val, fat, rrun, deps, callers, sema, readers, writer, counter, ver,
                  runs, ev, execIn, flags>>
 
 Reload(i) ==              \* CAS lost: output := t.result.Load(); nil -> "leader panicked"
@@ -336,7 +337,7 @@ Reload(i) ==              \* CAS lost: output := t.result.Load(); nil -> "leader
   /\ LET a == acts[i] k == a.key IN
      IF out[k] = NoId THEN acts' = Deliver(acts, i, ZeroRes)
      ELSE acts' = [acts EXCEPT ![i] = [a EXCEPT !.pc = "chk", !.o = out[k]]]
-  /\ UNCHANGED <<cfg, exp, step, tasks, res, out, val, fat, rrun, deps, callers, sema, readers, writer,
+  /\ UNCHANGED <<cfg, step, tasks, res, out, val, fat, rrun, deps, callers, sema, readers, writer,
                  counter, ver, runs, ev, execCnt, execIn, flags>>
 
 LeaderAcquire(i, ok) ==   \* asynchronous leader: callee.acquire()
@@ -351,7 +352,7 @@ LeaderAcquire(i, ok) ==   \* asynchronous leader: callee.acquire()
           \* as found: returns nil and leaves the pending result behind.  F1: reset it first.
           /\ acts' = IF "F1" \in Fix THEN [acts EXCEPT ![i].pc = "lreset"] ELSE Deliver(acts, i, ZeroRes)
           /\ UNCHANGED <<res, out, sema, execCnt>>
-  /\ UNCHANGED <<cfg, exp, step, tasks, val, fat, rrun, deps, callers, readers, writer, counter, ver, runs,
+  /\ UNCHANGED <<cfg, step, tasks, val, fat, rrun, deps, callers, readers, writer, counter, ver, runs,
                  ev, execIn, flags>>
 
 LeaderReset(i) ==         \* F1: t.result.CompareAndSwap(output, nil); return nil
@@ -360,7 +361,7 @@ LeaderReset(i) ==         \* F1: t.result.CompareAndSwap(output, nil); return ni
      IF out[k] = i THEN res' = [res EXCEPT ![k] = "nil"] /\ out' = [out EXCEPT ![k] = NoId]
      ELSE UNCHANGED <<res, out>>
   /\ acts' = Deliver(acts, i, ZeroRes)
-  /\ UNCHANGED <<cfg, exp, step, tasks, val, fat, rrun, deps, callers, sema, readers, writer, counter, ver,
+  /\ UNCHANGED <<cfg, step, tasks, val, fat, rrun, deps, callers, sema, readers, writer, counter, ver,
                  runs, ev, execCnt, execIn, flags>>
 
 (* Execute returned (or panicked).  Deferred release / transfer-back run first. *)
@@ -378,7 +379,7 @@ End(i) ==
         /\ acts' = IF ~a.async /\ a.hold /\ p \in DOMAIN acts
                    THEN [acts EXCEPT ![i] = a2, ![p].hold = TRUE]
                    ELSE [acts EXCEPT ![i] = a2]
-  /\ UNCHANGED <<cfg, exp, step, tasks, res, out, val, fat, rrun, deps, callers, readers, writer, counter,
+  /\ UNCHANGED <<cfg, step, tasks, res, out, val, fat, rrun, deps, callers, readers, writer, counter,
                  ver, runs, ev, execCnt, execIn, flags>>
 
 Close(i, drop) ==         \* close(output.done) and hand the result to the caller
@@ -400,7 +401,7 @@ Close(i, drop) ==         \* close(output.done) and hand the result to the calle
           /\ acts' = Deliver(acts, i, [v |-> a.rv, f |-> a.rf, ch |-> TRUE])
           /\ SawFlagOwn(a.run, k)
           /\ UNCHANGED out
-  /\ UNCHANGED <<cfg, exp, step, tasks, deps, callers, sema, readers, writer, counter, ver, runs, ev, execCnt>>
+  /\ UNCHANGED <<cfg, step, tasks, deps, callers, sema, readers, writer, counter, ver, runs, ev, execCnt>>
 
 PanicReset(i) ==          \* t.result.CompareAndSwap(output, nil)
   /\ acts[i].pc = "preset"
@@ -408,7 +409,7 @@ PanicReset(i) ==          \* t.result.CompareAndSwap(output, nil)
      /\ IF out[k] = i THEN res' = [res EXCEPT ![k] = "nil"] /\ out' = [out EXCEPT ![k] = NoId]
         ELSE UNCHANGED <<res, out>>
      /\ acts' = IF "F3" \in Fix THEN Deliver(acts, i, ZeroRes) ELSE [acts EXCEPT ![i].pc = "pcancel"]
-  /\ UNCHANGED <<cfg, exp, step, tasks, val, fat, rrun, deps, callers, sema, readers, writer, counter, ver,
+  /\ UNCHANGED <<cfg, step, tasks, val, fat, rrun, deps, callers, sema, readers, writer, counter, ver,
                  runs, ev, execCnt, execIn, flags>>
 
 PanicCancel(i) ==         \* caller.cancel(&ErrPanic{...}); run returns nil
@@ -416,7 +417,7 @@ PanicCancel(i) ==         \* caller.cancel(&ErrPanic{...}); run returns nil
   /\ LET a == acts[i] IN
      /\ runs' = IF Canc(a.run) THEN runs ELSE [runs EXCEPT ![a.run].canc = TRUE, ![a.run].cause = a.key]
      /\ acts' = IF "F3" \in Fix THEN [acts EXCEPT ![i].pc = "preset"] ELSE Deliver(acts, i, ZeroRes)
-  /\ UNCHANGED <<cfg, exp, step, tasks, res, out, val, fat, rrun, deps, callers, sema, readers, writer,
+  /\ UNCHANGED <<cfg, step, tasks, res, out, val, fat, rrun, deps, callers, sema, readers, writer,
                  counter, ver, ev, execCnt, execIn, flags>>
 
 (* ---- waitUntilDone ---- *)
@@ -441,7 +442,7 @@ CheckCycle(i, path) ==    \* BFS over deps as they are now; path = <<>> means no
        /\ path = <<>>
        /\ acts' = [acts EXCEPT ![i].pc = IF a.async THEN "wait" ELSE "wrel"]
        /\ UNCHANGED <<fat, sema>>
-  /\ UNCHANGED <<cfg, exp, step, tasks, res, out, val, rrun, deps, callers, readers, writer, counter, ver,
+  /\ UNCHANGED <<cfg, step, tasks, res, out, val, rrun, deps, callers, readers, writer, counter, ver,
                  runs, ev, execCnt, execIn, flags>>
 
 WaitRelease(i) ==         \* synchronous waiter: caller.release()
@@ -449,7 +450,7 @@ WaitRelease(i) ==         \* synchronous waiter: caller.release()
   /\ LET a == acts[i] p == a.par IN
      /\ sema' = IF acts[p].hold THEN sema + 1 ELSE sema
      /\ acts' = [acts EXCEPT ![i].pc = "wait", ![p].hold = FALSE]
-  /\ UNCHANGED <<cfg, exp, step, tasks, res, out, val, fat, rrun, deps, callers, readers, writer, counter,
+  /\ UNCHANGED <<cfg, step, tasks, res, out, val, fat, rrun, deps, callers, readers, writer, counter,
                  ver, runs, ev, execCnt, execIn, flags>>
 
 Wake(i, why) ==           \* select { <-output.done ; <-ctx.Done() }
@@ -458,7 +459,7 @@ Wake(i, why) ==           \* select { <-output.done ; <-ctx.Done() }
      /\ \/ why = "done" /\ out[k] = a.o /\ res[k] = "done"
         \/ why = "ctx" /\ Canc(a.run)
      /\ acts' = [acts EXCEPT ![i].pc = IF a.async THEN "wreload" ELSE "wreacq"]
-  /\ UNCHANGED <<cfg, exp, step, tasks, res, out, val, fat, rrun, deps, callers, sema, readers, writer,
+  /\ UNCHANGED <<cfg, step, tasks, res, out, val, fat, rrun, deps, callers, sema, readers, writer,
                  counter, ver, runs, ev, execCnt, execIn, flags>>
 
 WaitReacquire(i, ok) ==   \* synchronous waiter: caller.acquire()
@@ -470,7 +471,7 @@ WaitReacquire(i, ok) ==   \* synchronous waiter: caller.acquire()
      ELSE /\ Canc(a.run)
           /\ acts' = Deliver(acts, i, ZeroRes)
           /\ UNCHANGED sema
-  /\ UNCHANGED <<cfg, exp, step, tasks, res, out, val, fat, rrun, deps, callers, readers, writer, counter,
+  /\ UNCHANGED <<cfg, step, tasks, res, out, val, fat, rrun, deps, callers, readers, writer, counter,
                  ver, runs, ev, execCnt, execIn, flags>>
 
 WaitReload(i) ==          \* return t.result.Load()
@@ -479,7 +480,7 @@ WaitReload(i) ==          \* return t.result.Load()
      CASE out[k] = NoId -> acts' = Deliver(acts, i, ZeroRes) /\ UNCHANGED flags
        [] res[k] = "done" -> acts' = Deliver(acts, i, ResOf(k, a.run)) /\ SawFlag(a.run, k, rrun[k] = Gen(a.run))
        [] OTHER -> acts' = Deliver(acts, i, ZeroRes) /\ UNCHANGED flags   \* a pending result object: zero fields
-  /\ UNCHANGED <<cfg, exp, step, tasks, res, out, val, fat, rrun, deps, callers, sema, readers, writer,
+  /\ UNCHANGED <<cfg, step, tasks, res, out, val, fat, rrun, deps, callers, sema, readers, writer,
                  counter, ver, runs, ev, execCnt, execIn>>
 
 (* ---- Run returns ---- *)
@@ -488,14 +489,14 @@ RunExit1(i) ==            \* deferred root.release()
   /\ sema' = IF acts[i].hold THEN sema + 1 ELSE sema
   /\ acts' = [acts EXCEPT ![i].pc = "rexit2", ![i].hold = FALSE]
   /\ runs' = [runs EXCEPT ![acts[i].run].err = acts[i].cerr]
-  /\ UNCHANGED <<cfg, exp, step, tasks, res, out, val, fat, rrun, deps, callers, readers, writer, counter,
+  /\ UNCHANGED <<cfg, step, tasks, res, out, val, fat, rrun, deps, callers, readers, writer, counter,
                  ver, ev, execCnt, execIn, flags>>
 
 RunExit2(i) ==            \* deferred cancel(nil)
   /\ acts[i].pc = "rexit2"
   /\ runs' = [runs EXCEPT ![acts[i].run].canc = TRUE]
   /\ acts' = [acts EXCEPT ![i].pc = "rexit3"]
-  /\ UNCHANGED <<cfg, exp, step, tasks, res, out, val, fat, rrun, deps, callers, sema, readers, writer, counter,
+  /\ UNCHANGED <<cfg, step, tasks, res, out, val, fat, rrun, deps, callers, sema, readers, writer, counter,
                  ver, ev, execCnt, execIn, flags>>
 
 RunExit3(i) ==            \* F5: wait for the goroutines of this run; then dirty.RUnlock() and return
@@ -504,7 +505,7 @@ RunExit3(i) ==            \* F5: wait for the goroutines of this run; then dirty
   /\ readers' = readers - 1
   /\ runs' = [runs EXCEPT ![acts[i].run].state = "done"]
   /\ acts' = DelAct(i)
-  /\ UNCHANGED <<cfg, exp, step, tasks, res, out, val, fat, rrun, deps, callers, sema, writer, counter, ver,
+  /\ UNCHANGED <<cfg, step, tasks, res, out, val, fat, rrun, deps, callers, sema, writer, counter, ver,
                  ev, execCnt, execIn, flags>>
 
 (* ---- EvictWithCleanup(keys, bump the versions of keys) ---- *)
@@ -512,7 +513,7 @@ EvictCollect ==           \* the getTask loop.  As found it runs BEFORE dirty.Lo
   /\ ev.pc = "collect"
   /\ IF "F4" \in Fix THEN ev' = [ev EXCEPT !.pc = "lock"]
      ELSE ev' = [ev EXCEPT !.pc = "lock", !.coll = ev.keys \cap tasks]
-  /\ UNCHANGED <<cfg, exp, step, tasks, res, out, val, fat, rrun, deps, callers, sema, readers, writer,
+  /\ UNCHANGED <<cfg, step, tasks, res, out, val, fat, rrun, deps, callers, sema, readers, writer,
                  counter, ver, acts, runs, execCnt, execIn, flags>>
 
 RECURSIVE CallersClosure(_)
@@ -534,7 +535,7 @@ EvictApply ==             \* under dirty.Lock(): delete the closure over callers
      /\ execIn' = [k \in Nodes |-> IF k \in C THEN NoId ELSE execIn[k]]
      /\ ver' = [k \in Nodes |-> IF k \in ev.keys THEN ver[k] + 1 ELSE ver[k]]
      /\ ev' = [pc |-> "idle", keys |-> {}, coll |-> C, conc |-> FALSE]     \* coll remembers what was removed (EvictExact)
-  /\ UNCHANGED <<cfg, exp, step, val, fat, rrun, sema, readers, writer, counter, acts, runs, flags>>
+  /\ UNCHANGED <<cfg, step, val, fat, rrun, sema, readers, writer, counter, acts, runs, flags>>
 
 AllDone == step = Len(cfg.plan) /\ RunsDone /\ ev.pc = "idle" /\ DOMAIN acts = {}
 Finished == AllDone /\ UNCHANGED vars       \* so that TLC's deadlock check flags every stuck state
@@ -561,6 +562,7 @@ FairSpec == Spec /\ WF_vars(Step)
 (* Properties.  Quiescent: no call in progress and no goroutine of the executor alive. *)
 Quiet == RunsDone /\ ev.pc = "idle" /\ DOMAIN acts = {}
 Memo == {k \in Nodes : res[k] = "done"}
+exp == IF cfg \in Cases THEN ExpTable[cfg] ELSE Oracle(cfg)
 ExpNow == exp[step]
 
 TypeOK ==
